@@ -11,18 +11,18 @@ Lemma str_eqb_empty : forall k, String.eqb k "" = true -> k = "".
 Proof. intros k H. apply String.eqb_eq in H. exact H. Qed.
 
 Lemma remove_one_length : forall t l,
-  existsb (Nat.eqb t) l = true -> length (remove_one t l) = pred (length l).
+  existsb (Nat.eqb t) l = true -> List.length (remove_one t l) = pred (List.length l).
 Proof.
-  induction l as [|x tl IH]; cbn [existsb remove_one length]; intro H.
+  induction l as [|x tl IH]; cbn [existsb remove_one List.length]; intro H.
   - discriminate.
   - destruct (Nat.eqb x t) eqn:Ext.
     + reflexivity.
     + rewrite Nat.eqb_sym in Ext. rewrite Ext in H. cbn in H.
-      specialize (IH H). cbn [length]. rewrite IH.
+      specialize (IH H). cbn [List.length]. rewrite IH.
       destruct tl; [discriminate H | reflexivity].
 Qed.
 
-Lemma existsb_nil_len : forall t (l : list nat), length l = 0 -> existsb (Nat.eqb t) l = false.
+Lemma existsb_nil_len : forall t (l : list nat), List.length l = 0 -> existsb (Nat.eqb t) l = false.
 Proof. intros t l H. destruct l; [reflexivity | discriminate H]. Qed.
 
 (* ---- (a) accepted traces -------------------------------------------------- *)
@@ -55,7 +55,7 @@ Proof.
   repeat (break_hyp Hs; try discriminate); inv_pair Hs;
   unfold Minv; cbn [users cleaner last_clean holders unbal waiting];
   (split; [|split]); intros; norm; unfold holds in *;
-  try (rewrite remove_one_length by assumption); cbn [length];
+  try (rewrite remove_one_length by assumption); cbn [List.length];
   solve [ destruct Hu' as [? | (? & ?)]; try split; try congruence; try lia; auto ].
 Qed.
 
